@@ -43,7 +43,26 @@ structure V where
 
 def hd (l : List Blk) : Option Blk := l.head?
 
-def stepV (v : V) (line : String) : Except String V := do
+def parseHead (t : String) (pre : String) : Option (Option Blk) :=
+  if t.startsWith pre then some (parseBlk (t.drop pre.length).toString) else none
+
+/-- owner events carry the observed heads of the owner-local lists: first take the owner-local (silent) model
+    steps that bring the model's `lf`/`free` heads to the observed ones -/
+def syncOwner (v : V) (obs : String) : Except String V :=
+  match obs.splitOn " " with
+  | [a, b] =>
+    match parseHead a "lf=", parseHead b "fr=" with
+    | some lfh, some frh =>
+      match withSilent 6 v.s (fun s => if s.lf.head? = lfh ∧ s.free.head? = frh then some s else none) with
+      | some (s', n) => pure { v with s := s', steps := v.steps + n, silents := v.silents + n }
+      | none => throw s!"owner-local lists (lf head {repr lfh}, free head {repr frh}) not reachable by owner-local model steps; model lf={v.s.lf.take 4} free={v.s.free.take 4} own={v.s.own} pend={v.s.pend}"
+    | _, _ => throw "parse owner-local heads"
+  | _ => throw "parse owner-local heads"
+
+def stepV (v0 : V) (line0 : String) : Except String V := do
+  let (line, v) ← (match line0.splitOn " | " with
+    | [l, obs] => (syncOwner v0 obs).map (fun v => (l, v))
+    | _ => pure (line0, v0) : Except String (String × V))
   let toks := line.splitOn " "
   let s := v.s
   let fail (m : String) : Except String V := throw s!"{m} at `{line}` tf={s.tf} flag={repr s.flag} dl={s.dl} pend={s.pend} own={s.own} free={s.free.take 4} lf={s.lf.take 4}"
@@ -79,7 +98,18 @@ def stepV (v : V) (line : String) : Except String V := do
     | none => fail "owner did not finish its delayed list"
   | ["E", _, "load", "xheap"] => pure v
   | ["E", "t0", "load", "dl", d] => if hd s.dl = parseBlk d then pure { v with events := v.events + 1 } else fail "observed delayed head differs"
-  | ["E", "t0", "casw", "dl", _, r] => if r = "ok" then doL .takeDl else pure v
+  | ["E", "t0", "casw", "dl", w, r] =>
+    if r != "ok" then pure v else
+    match w.splitOn "->" with
+    | [a, b] =>
+      if hd s.dl != parseBlk a then fail "observed delayed head differs at the owner's CAS" else
+      match parseBlk b with
+      | none => doL .takeDl                      -- head -> NULL: the owner takes the list over
+      | some nb =>                               -- head -> block: the owner re-pushes the block it gave up on
+        match withSilent 2 s (fun s => match s.own with | [(b', false)] => if b' = nb then exec s .procGiveUp else none | _ => none) with
+        | some (s', n) => ok s' n
+        | none => fail "owner re-push not explained by the model"
+    | _ => fail "parse"
   | ["E", "t0", "load", "xtf", w] =>
     match parseWord w with
     | some (h, f) => if hd s.tf = h ∧ s.flag = f then pure { v with events := v.events + 1 } else fail "observed xthread_free differs"
